@@ -12,6 +12,7 @@ import numpy as np
 from pathlib import Path
 
 from .utils import get_logger
+from . import _verif
 
 logger = get_logger("cache")
 
@@ -58,10 +59,13 @@ class GreensFunctionCache:
         path = self.cache_dir / f"{key}.npz"
         if path.exists():
             logger.debug("Cache hit: %s", key[:12])
+            _verif.emit("cache_get", key=key[:16], exists=True)
             data = np.load(path)
             grid = (data["X"], data["Y"], data["Z"])
+            _verif.emit("cache_hit", key=key[:16])
             return grid, data["conc"], data["flx"]
         logger.debug("Cache miss: %s", key[:12])
+        _verif.emit("cache_get", key=key[:16], exists=False)
         return None
 
     def put(
@@ -71,7 +75,9 @@ class GreensFunctionCache:
         key = self._compute_key(z, profiles, domain, modes, meas_pt, halo, precision)
         path = self.cache_dir / f"{key}.npz"
         X, Y, Z = grid
+        _verif.emit("cache_put_begin", key=key[:16])
         np.savez(path, X=X, Y=Y, Z=Z, conc=conc, flx=flx)
+        _verif.emit("cache_put_end", key=key[:16])
         logger.debug("Cached: %s", key[:12])
 
     def clear(self):
